@@ -189,7 +189,7 @@ def run_tlc(module, cfg, name, workers=1, env_extra=None, timeout=1800, simulate
 
 def tlc_must_pass(r, what):
     if not r.ok:
-        log(r.error_text)
+        log(r.error_text[:1500])
         raise ToolError("TLC run failed: %s" % what)
 
 
@@ -205,7 +205,7 @@ def validate_trace(trace_module, cfg, trace_path, name, timeout=1800, env_extra=
         env.update(env_extra)
     r = run_tlc(trace_module, cfg, name, workers=1, env_extra=env, timeout=timeout, deque=True, xmx=xmx)
     if not r.ok:
-        log(r.error_text)
+        log(r.error_text[:1500])
         raise ToolError("trace validation run failed (%s on %s)" % (trace_module, trace_path))
     res = tagged_json(r, "RESULT")
     if len(res) < 1:
